@@ -81,7 +81,7 @@ def throttle[**Args, Result](
             ),
         )
 
-    if function := function:
+    if function is not None:
         return _wrap(function)
 
     else:
